@@ -8,6 +8,7 @@ mod findings;
 mod gen;
 mod pool;
 mod scen;
+mod selftest;
 mod simlibc;
 mod util;
 
@@ -170,6 +171,11 @@ fn main() {
             }
             println!("no divergence found up to seed {n}");
             std::process::exit(1);
+        }
+        "selftest-determinism" => {
+            let seed: u64 = std::env::var("VERIF_SEED").ok().and_then(|v| v.parse().ok()).unwrap_or(20260925);
+            let verif = std::env::var("VERIF_DIR").unwrap_or_else(|_| "/verif".into());
+            std::process::exit(selftest::determinism(seed, &verif));
         }
         "replay" => {
             let path = args.get(2).cloned().unwrap_or_default();
